@@ -232,20 +232,33 @@ def Sys.rdrop (s : Sys) : Sys × List String :=
 
 /-! ### Line protocol -/
 
+/-- Operation kinds: `(name, multishot?, opcode name)`. The operation machine is
+kind-agnostic: a kind only decides single-shot/multishot and the opcode printed
+for its submissions. -/
+def kinds : List (String × Bool × String) := [
+  ("read", false, "READ"), ("write", false, "WRITE"), ("sendzc", false, "SEND_ZC"),
+  ("mread", true, "READ_MULTISHOT"), ("readv", false, "READV"), ("writev", false, "WRITEV"),
+  ("sendto", false, "SEND"), ("sendmsgzc", false, "SENDMSG_ZC"), ("recvv", false, "RECVMSG"),
+  -- plain socket I/O
+  ("recv", false, "RECV"), ("send", false, "SEND"), ("recvfrom", false, "RECVMSG"),
+  ("recvfromv", false, "RECVMSG"), ("sendtov", false, "SENDMSG"), ("sendmsg", false, "SENDMSG"),
+  -- connections, names, options
+  ("accept", false, "ACCEPT"), ("maccept", true, "ACCEPT"), ("mrecv", true, "RECV"),
+  ("connect", false, "CONNECT"), ("bind", false, "BIND"), ("listen", false, "LISTEN"),
+  ("shutdown", false, "SHUTDOWN"), ("sockname", false, "URING_CMD"), ("peername", false, "URING_CMD"),
+  ("getsockopt", false, "URING_CMD"), ("setsockopt", false, "URING_CMD"),
+  -- file system
+  ("open", false, "OPENAT"), ("statx", false, "STATX"), ("rename", false, "RENAMEAT"),
+  ("unlink", false, "UNLINKAT"), ("rmdir", false, "UNLINKAT"), ("mkdir", false, "MKDIRAT"),
+  ("truncate", false, "FTRUNCATE"), ("fsync", false, "FSYNC"), ("fdatasync", false, "FSYNC"),
+  ("fallocate", false, "FALLOCATE"), ("fadvise", false, "FADVISE"), ("splice", false, "SPLICE"),
+  -- processes, signals, descriptors
+  ("waitid", false, "WAITID"), ("sigrecv", false, "READ"), ("sigstream", false, "READ"),
+  ("pipe", false, "PIPE"), ("mpoll", true, "POLL_ADD"), ("close", false, "CLOSE"),
+  ("todirect", false, "FILES_UPDATE"), ("tofd", false, "FIXED_FD_INSTALL"), ("socket", false, "SOCKET")]
+
 def kindInfo (k : String) : Option (Bool × String) :=
-  if k == "read" then some (false, "READ")
-  else if k == "write" then some (false, "WRITE")
-  else if k == "sendzc" then some (false, "SEND_ZC")
-  else if k == "mread" then some (true, "READ_MULTISHOT")
-  else if k == "maccept" then some (true, "ACCEPT")
-  else if k == "readv" then some (false, "READV")
-  else if k == "writev" then some (false, "WRITEV")
-  else if k == "sendto" then some (false, "SEND")
-  else if k == "sendmsgzc" then some (false, "SENDMSG_ZC")
-  else if k == "recvv" then some (false, "RECVMSG")
-  else if k == "open" then some (false, "OPENAT")
-  else if k == "accept" then some (false, "ACCEPT")
-  else none
+  (kinds.find? (fun e => e.1 == k)).map (fun e => e.2)
 
 /-- Parse `i:res:flags` triples separated by commas (`-` = none). -/
 def parsePosts (s : String) : Option (List (Nat × Int × Nat)) :=
